@@ -1372,7 +1372,7 @@ CONTROLS['C14'] = [
       "    if want_version >= (1, 12):\n        rel_types.append('allocations')", 'R14.4'),
     M('c14-last-modified-inverted', H + 'root.py',
       "    if want_version.matches((1, 15)):", "    if not want_version.matches((1, 15)):",
-      'R14.4'),
+      'R14.6'),
     M('c14-delete-inventories-404', HI,
       "@microversion.version_handler('1.5', status_code=405)", "@microversion.version_handler('1.5')",
       'R14.4'),
